@@ -45,9 +45,9 @@ def entry_points(ctx: RuleContext, r) -> list:
 def run(ctx: RuleContext):
     r = roles_for(ctx.model)
     cg = CallGraph(ctx.model)
-    check_thread_locals(ctx, r, "C06.1")
-    check_shared_writes(ctx, r, cg, "C06.2", "C06.3")
-    check_no_memo_tables(ctx, r, cg, "C06.4")
+    ctx.sub(check_thread_locals, ctx, r, "C06.1")
+    ctx.sub(check_shared_writes, ctx, r, cg, "C06.2", "C06.3")
+    ctx.sub(check_no_memo_tables, ctx, r, cg, "C06.4")
 
 
 def check_thread_locals(ctx, r, tag):
